@@ -509,6 +509,20 @@ def r04_4(rep, M, rid):
         rep.violation(rid, "_find_proto_cell: number of spans of a reduced cell", f"`{nvar}` (returned as the number of spans) is not updated in the branch that reduces a "
                       "layered 3D cell to two dimensions: the cell is periodic in (a, b) only but is reported with three spans, the region is built with is_2d=False and a "
                       "monolayer is classified as Surface instead of Material2D", M.where(fq, branch))
+    # a reduced cell goes through the checks of two-span cells (size guard for cells made of simulation-cell vectors, dimensionality of the cell):
+    # the flag that guards that block is raised in the reduction branch
+    guard2d = [t for t in ast.walk(fn) if isinstance(t, ast.If) and isinstance(t.test, ast.Name)
+               and any(isinstance(x, ast.Attribute) and x.attr == "max_2d_single_cell_size" for x in ast.walk(t))]
+    if not guard2d:
+        raise AnalysisError("_find_proto_cell: the block of checks for two-span cells (guarded by a flag, containing the max_2d_single_cell_size test) was not found")
+    flag = guard2d[0].test.id
+    raised = [s2 for s2 in ast.walk(branch) if isinstance(s2, ast.Assign) and norm(s2.targets[0]) == flag]
+    if raised and all(isinstance(s2.value, ast.Constant) and s2.value.value is True for s2 in raised):
+        rep.ok(rid, f"_find_proto_cell: a reduced cell raises `{flag}` and goes through the checks of two-span cells")
+    else:
+        rep.violation(rid, f"_find_proto_cell: `{flag}` in the reduction branch", f"a layered 3D cell reduced to two dimensions does not set `{flag}` to True "
+                      f"({[norm(s2) for s2 in raised] or 'not assigned'}): it skips the size guard and the dimensionality / stacked-sheet handling of two-span cells and is returned "
+                      "unchecked (or with atoms of several sheets)", M.where(fq, branch))
     for c in mins:
         b = M.bind_args(GEO + ".get_minimized_cell", c)
         ax = b.get("axis")
@@ -569,6 +583,8 @@ def run(rep, ctx):
     with rep.guard("R04.6"):
         _sh.normal_form(rep, M, "R04.6")
         r04_flag(rep, M, "R04.6")
+        from . import c11 as _c11i
+        _c11i.id_without_parameters(rep, M, "R04.6")
     rep.rule("R04.14", "a monolayer's prototype cell goes through the 2D branch of the conventional cell: normalisation steps on every path, the non-periodic axis "
                        "located by magnitude in spglib's transformation matrix whatever the orientation of the cell's basis (shared with C11)")
     with rep.guard("R04.14"):
